@@ -100,6 +100,9 @@ func (h *Handle) Seek(off int64, whence int) (int64, string) {
 }
 
 func (h *Handle) writeAt(p []byte, off int64) {
+	if len(p) == 0 {
+		return // a zero-length write never extends the file
+	}
 	n := h.node()
 	n.Timed = false // a write sets mtime to "now": unknown to the reference
 	if int64(len(n.Content)) < off+int64(len(p)) {
@@ -176,4 +179,11 @@ func (h *Handle) Close() string {
 	}
 	h.closed = true
 	return OK
+}
+
+// NewHandle makes a reference handle on an existing node (used to mirror handles that the
+// implementation handed out in situations the reference does not model).
+func NewHandle(fs *FS, p string, r, w bool) *Handle {
+	n := fs.Nodes[Clean(p)]
+	return &Handle{fs: fs, Path: Clean(p), Dir: n != nil && n.Kind == "dir", R: r, W: w}
 }
